@@ -74,6 +74,10 @@ fn main() {
         println!("INCONCLUSIVE property={} reason={}", prop, e);
         std::process::exit(2);
     }
+    if let Err(e) = model::cron_spec::self_check() {
+        println!("INCONCLUSIVE property={} reason={}", prop, e);
+        std::process::exit(2);
+    }
     install_panic_hook();
     let t0 = Instant::now();
     let result = props::run(&ctx);
